@@ -54,7 +54,9 @@ type Out struct {
 	Err    string // error returned by New or Exec ("" = success)
 	AtNew  bool   // the error came from New
 	Panic  string // a panic escaped New or Exec
-	failed bool
+	// ErrRows is the number of rows returned *together with* an error (must be 0)
+	ErrRows int
+	failed  bool
 }
 
 func (o Out) OK() bool { return o.Err == "" && o.Panic == "" }
@@ -88,7 +90,7 @@ func Run(doc map[string]any, sql string, o Opts, extra ...genql.QueryOption) (ou
 	}
 	rows, err := q.Exec()
 	if err != nil {
-		return Out{Err: err.Error()}
+		return Out{Err: err.Error(), ErrRows: len(rows)}
 	}
 	return Out{Raw: rows, Rows: val.NormRows(rows)}
 }
